@@ -49,6 +49,7 @@ def run(chk):
         "normalisation. Accessors, map pairing, from_ast and the key-set invariants are decided structurally."
     )
     chk.rule("R1", "Cache.update computes the same visible / grouping column sequence as each compiler, for every verb and the leaf")
+    chk.rule("R9", "Cache.update interpreted on every verb sequence up to the bound reports the visible names, identities, grouping and scope the verbs' documented meaning gives (reference automaton)")
     chk.rule("R2", "columns/iter/len/in/dir/selected_cols/final_select read name_to_uuid / uuid_to_name only")
     chk.rule("R3", "name_to_uuid and uuid_to_name are always assigned together, one as the swap of the other")
     chk.rule("R4", "Cache.from_ast folds Cache.update over the tree and recurses into `right` exactly for verbs with a right child")
@@ -63,6 +64,11 @@ def run(chk):
     chk.ob("R1", sib.cfgs["cache"].module, sib.cfgs["cache"].func, f"SubqueryMarker.PART: cache = {S.show(mp['cache'])}, polars = {S.show(mp['polars'])}, sql = {S.show(mp['sql'])}",
            mp["cache"] == mp["polars"] == mp["sql"], "the grouping state across a subquery marker differs between the cache and the compilers")  # fmt: skip
     _leaf_rule(chk, sib, sym)
+
+    # ---- R9 typestate exploration (cachesim): the cache's column report vs the reference automaton
+    from .. import cachesim
+
+    cachesim.report(chk, m, "R9", "C11", "visible names / identities / grouping / scope vs reference automaton")
 
     # ---- R2
     tbl = chk.repo.mod("pipe.table")
